@@ -82,6 +82,7 @@ Definition parse_descr (raw0 : str) (dnum : Z) (pre0 : str) (atom : option Z) : 
                 else OK None);
       do wt <- (if contains (lit "|") raw then
                   if negb (count_char (ch "|") raw =? 2) then Err ERuntime "bars" else
+                  if negb (str_eqb (slice raw (Some (rfind (lit "|") raw + 1)) None) (lit "]")) then Err ERuntime "text after the closing '|'" else
                   let ws := slice raw (Some (find (lit "|") raw)) (Some (rfind (lit "|") raw)) in
                   match map_opt py_float (split_ws (strip_chars (lit "|") ws)) with
                   | None => Err EValue "weight"
